@@ -4,6 +4,7 @@ from fractions import Fraction
 from ..engine import Prop, Judgement
 from ..numcmp import close, fr
 from .. import sesslib as sl
+from .c07 import csv_market, table_of_csv
 
 DAY = 86400
 
@@ -30,7 +31,21 @@ class C08(Prop):
             c['stream'] += ':rows'
             c['any_alpha'] = True
             out.append(c)
+        # a third of all sessions read their prices from (possibly back-adjusted) CSV files through the real data source
+        for c in out:
+            if rng.random() < 0.33:
+                cfg = c['cfg']
+                c['market'] = csv_market(rng, c['assets'], cfg['start'] // DAY, cfg['end'] // DAY, c['exact'])
+                c['stream'] += ':csv' + (':adjusted' if c['market']['adjust'] else '')
         return out
+
+    @staticmethod
+    def tabled(c):
+        if c['market']['kind'] == 'csv':
+            c2 = dict(c)
+            c2['market'] = {'kind': 'table', 'rows': table_of_csv(c)}
+            return c2
+        return c
 
     NOP = ['num', ['floor', Fraction(0)]]
 
@@ -44,6 +59,7 @@ class C08(Prop):
                               rows, sl.market_val(c['market'])]]
 
     def model_case2(self, c, impl):
+        c = self.tabled(c)
         s = sl.session_model_case(c)
         parts = [[s[0], s[1]]]
         if c.get('any_alpha'):
@@ -57,6 +73,7 @@ class C08(Prop):
         return ('multi', parts)
 
     def model_case(self, c):
+        c = self.tabled(c)
         s = sl.session_model_case(c)
         p = sl.spec_model_case(c)
         return ('multi', [[s[0], s[1]], [p[0], p[1]], self.NOP])
@@ -90,6 +107,7 @@ class C08(Prop):
         j = Judgement()
         j.key = hash(repr(c['cfg']))
         msess, mspec, mrows = mod
+        c = self.tabled(c)
         sl.compare_session(c, impl, msess, j)
         F = j.failures
         if impl['init'][0] != 'ok':
